@@ -47,6 +47,7 @@ type BlockTrace struct {
 }
 
 type Chain struct {
+	DB     dbm.DB
 	App    *c4eapp.App
 	W      *World
 	Height int64 // last committed height
@@ -57,7 +58,8 @@ type Chain struct {
 
 // NewChainFromGenesis builds a fresh app and InitChains it from raw app-state bytes.
 func NewChainFromGenesis(appState []byte, initialHeight int64, genesisTime time.Time) *Chain {
-	a, enc := newApp(dbm.NewMemDB())
+	db := dbm.NewMemDB()
+	a, enc := newApp(db)
 	w := &World{App: a, Enc: enc}
 	_, valSet, valPriv := BuildGenesis(a, enc, GenesisSpec{}) // only for the deterministic validator identity
 	w.ValSet, w.ValPriv = valSet, valPriv
@@ -75,7 +77,35 @@ func NewChainFromGenesis(appState []byte, initialHeight int64, genesisTime time.
 	if h == 0 {
 		h = 1
 	}
-	return &Chain{App: a, W: w, Height: h - 1, Time: genesisTime}
+	return &Chain{DB: db, App: a, W: w, Height: h - 1, Time: genesisTime}
+}
+
+// Restart models a restart of the node process between two blocks: a new application instance is
+// constructed over the same database and loads the last committed version; everything the old
+// instance held in memory is gone.
+func (c *Chain) Restart() {
+	if c.inBlk {
+		panic("harness: restart inside a block")
+	}
+	a, enc := newApp(c.DB)
+	c.App = a
+	c.W = &World{App: a, Enc: enc, ValSet: c.W.ValSet, ValPriv: c.W.ValPriv, ValAddr: c.W.ValAddr}
+}
+
+// ServeTraffic makes the node do what nodes do between blocks besides consensus: check and
+// simulate the transactions of the coming block (mempool admission, gas estimation) and answer
+// queries.  None of it is part of the replicated state machine.
+func (c *Chain) ServeTraffic(txs [][]byte) {
+	defer func() { _ = recover() }() // whatever happens here must not matter to consensus
+	for _, bz := range txs {
+		c.App.CheckTx(abci.RequestCheckTx{Tx: bz, Type: abci.CheckTxType_New})
+		_, _, _ = c.App.Simulate(bz)
+	}
+	for _, path := range []string{"/chain4energy.c4echain.cfevesting.Query/VestingType", "/chain4energy.c4echain.cfevesting.Query/Params",
+		"/chain4energy.c4echain.cfevesting.Query/VestingsSummary", "/chain4energy.c4echain.cfeminter.Query/State", "/chain4energy.c4echain.cfeminter.Query/Inflation",
+		"/chain4energy.c4echain.cfeminter.Query/Params", "/chain4energy.c4echain.cfedistributor.Query/States", "/chain4energy.c4echain.cfedistributor.Query/Params"} {
+		c.App.Query(abci.RequestQuery{Path: path, Data: nil})
+	}
 }
 
 func GenesisBytes(spec GenesisSpec) []byte {
@@ -114,6 +144,14 @@ func evString(evs []abci.Event) string {
 }
 
 func txResultString(r abci.ResponseDeliverTx) string {
+	if r.GasWanted == 0 && r.Code != 0 {
+		// Rejected before the ante handler installed the transaction's own gas meter (undecodable
+		// bytes, failed ValidateBasic): baseapp then reports what the block context's meter has
+		// accumulated, which includes BeginBlock work that cosmos-sdk does only in the first block
+		// after a process start (x/capability rebuilds its in-memory index there).  That figure describes the SDK's process, not the
+		// transaction (remark R-GASNOMETER), so it is left out of the comparison.
+		return fmt.Sprintf("code=%d codespace=%s data=%x gas=unmetered events=%s", r.Code, r.Codespace, r.Data, evString(r.Events))
+	}
 	return fmt.Sprintf("code=%d codespace=%s data=%x gas=%d/%d events=%s", r.Code, r.Codespace, r.Data, r.GasUsed, r.GasWanted, evString(r.Events))
 }
 
@@ -200,21 +238,41 @@ func (c *Chain) BuildTx(signer Acc, msgs ...sdk.Msg) []byte {
 }
 
 // Replay executes a concrete history on a fresh replica and returns its trace.
-func Replay(h ConcreteHistory) []BlockTrace {
+func Replay(h ConcreteHistory) []BlockTrace { return ReplayAs(h, ReplicaOpts{}) }
+
+// ReplicaOpts describes the process history of a replica, i.e. everything about a node that is
+// not the replicated input.
+type ReplicaOpts struct {
+	RestartAfter map[int]bool // indexes of blocks after whose commit the node process restarts
+	Traffic      bool         // the node also checks / simulates the coming transactions and answers queries between blocks
+}
+
+// ReplayAs executes a concrete history on a fresh replica with the given process history.
+func ReplayAs(h ConcreteHistory, o ReplicaOpts) []BlockTrace {
 	gen, err := base64.StdEncoding.DecodeString(h.Genesis)
 	if err != nil {
 		panic(err)
 	}
 	c := NewChainFromGenesis(gen, h.InitialHeight, nsTime(h.GenesisTimeNs))
 	var out []BlockTrace
-	for _, b := range h.Blocks {
-		bt := c.Begin(nsTime(b.TimeNs))
+	for i, b := range h.Blocks {
+		var txs [][]byte
 		for _, t64 := range b.Txs {
 			bz, _ := base64.StdEncoding.DecodeString(t64)
+			txs = append(txs, bz)
+		}
+		if o.Traffic && i > 0 {
+			c.ServeTraffic(txs)
+		}
+		bt := c.Begin(nsTime(b.TimeNs))
+		for _, bz := range txs {
 			c.Deliver(&bt, bz)
 		}
 		c.End(&bt)
 		out = append(out, bt)
+		if o.RestartAfter[i] {
+			c.Restart()
+		}
 	}
 	return out
 }
